@@ -68,7 +68,7 @@ def run(m, chk):
         "on every return site the returned curve depends on both operands, and on the weights of an operand unless the path established `weights is None` (DEP-MAY). "
         "Pointwise equality of the values and the correctness of the combined knot vector are not decided."
     )
-    chk.decides = ["PURE", "FRESH", "GATE(limits ⇒ ValueError)", "DELEGATE", "DEP-MAY per return site", 'POLY-ONLY (polynomial helpers only under weights is None)', 'INTERVAL', 'REFLECTED (x - A, M @ A, x / A are not A - x, A @ M, A / x)']
+    chk.decides = ["PURE", "FRESH", "GATE(limits ⇒ ValueError)", "DELEGATE", "DEP-MAY per return site", 'POLY-ONLY (polynomial helpers only under weights is None)', 'INTERVAL', 'REFLECTED (x - A, M @ A, x / A are not A - x, A @ M, A / x)', 'ZIP-ALIGN (parallel lists are zipped with the same slice)']
     chk.not_decided = ["(A op B)(u) = A(u) op B(u) as values", "correctness of the combined knot vector (fails for different degrees with interior knots — consequence of the | defect, DESIGN §5)"]
     for name in ALL:
         q = B + name
@@ -104,9 +104,10 @@ def run(m, chk):
         body = [s for s in fi.node.body if not (isinstance(s, ast.Expr) and isinstance(s.value, ast.Constant))]
         ok = len(body) == 1 and isinstance(body[0], ast.Return) and any(c.callees for c in r.root(q).calls)
         chk.ob("DELEGATE", f"{q}: a single `return` delegating to the base operators", ok, loc=f"curves.py:{fi.node.lineno}", detail="" if ok else f"{q}: no longer a pure delegation", func=q, construct="not a delegation")
-    from .extra import interval_from_operand, poly_only, reflected_ops
+    from .extra import interval_from_operand, poly_only, reflected_ops, zip_align
 
     reflected_ops(r, chk)
+    zip_align(r, chk, [B + n_ for n_ in CURVE_CURVE])
     poly_only(r, chk, [B + n_ for n_ in CURVE_CURVE], floor=8)
     interval_from_operand(r, chk, [B + n_ for n_ in CURVE_CURVE + ["__rtruediv__"]], floor=4)
     # 3. operand dependence per return site
